@@ -96,6 +96,9 @@ def run():
         reqs.append({"id": f"clip.{x}.{lo}.{hi}", "src": PRELUDE + f"x := {pool[x][0]}; lo := {pool[lo][0]}; hi := {pool[hi][0]}; x.clip(lo, hi)"})
     out = run_cases(reqs, label="C18")
     end = lambda rid: out[rid]["end"]
+    late = [r["id"] for r in reqs if out[r["id"]]["end"].startswith(("discarded:", "fuel:"))]
+    if late:
+        raise pvlib.Broken(f"{len(late)} cells of the relation table were not evaluated (deadline): {late[:3]}")
     canon = [end(f"v.{i}") for i in range(n)]
     for i, c in enumerate(canon):
         if not c.startswith("val:"):
